@@ -26,26 +26,38 @@ Definition Inv (y : sys) : Prop :=
 Lemma redo_root_move_lsn s o n l : nextLSN (fst (redo_root_move s o n l)) = nextLSN s.
 Proof. unfold redo_root_move. repeat (break_match; cbn [fst]; try reflexivity). Qed.
 
-Lemma replay_one_lsn s w s1 : replay_one s w = RCont s1 -> w_lsn w < nextLSN s1 /\ nextLSN s <= nextLSN s1.
+Lemma redo_root_move_key s o n l : lastKey (fst (redo_root_move s o n l)) = lastKey s.
+Proof. unfold redo_root_move. repeat (break_match; cbn [fst]; try reflexivity). Qed.
+
+(* the counters after one record: never lower, above the record's LSN, and (inserts) at least its key *)
+Lemma replay_one_counters s w s1 : replay_one s w = RCont s1 ->
+  (w_lsn w < nextLSN s1 /\ nextLSN s <= nextLSN s1) /\
+  (lastKey s <= lastKey s1 /\ (w_op w = OpInsert -> w_cell w <= lastKey s1)).
 Proof.
-  unfold replay_one. pose proof (bump_gt s (w_lsn w)) as A. pose proof (bump_ge s (w_lsn w)) as B.
-  set (s0 := bump_lsn s (w_lsn w)) in *.
+  unfold replay_one. fold (pre s w).
+  pose proof (pre_gt s w) as A. pose proof (pre_ge s w) as B.
+  pose proof (pre_key_ge s w) as C. pose proof (pre_key_insert s w) as D.
+  set (s0 := pre s w) in *.
   destruct (find_node (w_page w) (forest s0)) as [[isroot n]|]; [|discriminate].
   destruct (N.leb (w_lsn w) (t_lsn n)); [intros H; inversion H; subst; auto|].
-  destruct (w_op w).
+  destruct (w_op w) eqn:Eop.
   - destruct (negb isroot); [discriminate|].
     destruct (tree_insert ML MI PS MV n (w_cell w) (w_lsn w) (w_val w) (nextFree s0)) as [[t' nf]|e].
-    + destruct (N.eqb (t_off t') (w_page w)); [intros H; inversion H; subst; cbn [nextLSN]; auto|].
+    + destruct (N.eqb (t_off t') (w_page w)); [intros H; inversion H; subst; cbn [nextLSN lastKey]; split; [auto|split; [lia|intros; lia]]|].
       match goal with |- context [redo_root_move ?a ?b ?c ?d] =>
-        pose proof (redo_root_move_lsn a b c d) as L; destruct (redo_root_move a b c d) as [s2 [u|e|]] end;
+        pose proof (redo_root_move_lsn a b c d) as L; pose proof (redo_root_move_key a b c d) as K;
+        destruct (redo_root_move a b c d) as [s2 [u|e|]] end;
         try discriminate.
-      intros H; inversion H; subst. cbn [fst nextLSN] in L. rewrite L. auto.
-    + destruct e; try discriminate. intros H; inversion H; subst; cbn [nextLSN]; auto.
+      intros H; inversion H; subst. cbn [fst nextLSN lastKey] in L, K. rewrite L, K. split; [auto|split; [lia|intros; lia]].
+    + destruct e; try discriminate. intros H; inversion H; subst; cbn [nextLSN lastKey]; split; [auto|split; [lia|intros; lia]].
   - destruct n; [|discriminate]. destruct (Nat.ltb MV _); [discriminate|].
-    destruct (existsb _ _); [|discriminate]. intros H; inversion H; subst; cbn [set_forest nextLSN]; auto.
+    destruct (existsb _ _); [|discriminate]. intros H; inversion H; subst; cbn [set_forest nextLSN lastKey]; auto.
   - destruct n; [|discriminate].
-    destruct (existsb _ _); [|discriminate]. intros H; inversion H; subst; cbn [set_forest nextLSN]; auto.
+    destruct (existsb _ _); [|discriminate]. intros H; inversion H; subst; cbn [set_forest nextLSN lastKey]; auto.
 Qed.
+
+Lemma replay_one_lsn s w s1 : replay_one s w = RCont s1 -> w_lsn w < nextLSN s1 /\ nextLSN s <= nextLSN s1.
+Proof. intros H. apply (replay_one_counters _ _ _ H). Qed.
 
 Lemma replay_lsn ws : forall s r, replay s ws = RCont r ->
   nextLSN s <= nextLSN r /\ Forall (fun w => w_lsn w < nextLSN r) ws.
@@ -55,6 +67,16 @@ Proof.
   - cbn [replay] in H. destruct (replay_one s w) as [s1| | |] eqn:E; try discriminate.
     destruct (replay_one_lsn _ _ _ E) as [A B]. destruct (IH _ _ H) as [C D].
     split; [lia|]. constructor; [lia | exact D].
+Qed.
+
+Lemma replay_key ws : forall s r, replay s ws = RCont r ->
+  lastKey s <= lastKey r /\ Forall (fun w => w_op w = OpInsert -> w_cell w <= lastKey r) ws.
+Proof.
+  induction ws as [|w rest IH]; intros s r H.
+  - cbn in H. inversion H; subst. split; [lia | constructor].
+  - cbn [replay] in H. destruct (replay_one s w) as [s1| | |] eqn:E; try discriminate.
+    destruct (replay_one_counters _ _ _ E) as [_ [A B]]. destruct (IH _ _ H) as [C D].
+    split; [lia|]. constructor; [intros Ho; specialize (B Ho); lia | exact D].
 Qed.
 
 (* ---------- the initial database ---------- *)
@@ -123,9 +145,9 @@ Proof.
   assert (Sf : seq (flush r) (mem y)) by (eapply seq_trans; [apply seq_flush | exact Hseq]).
   split; [exact Sf|]. pose proof (good_flush r Gr) as Gf. split; [exact Gf|].
   assert (HGL : GL (wal y) (flush r)).
-  { split; [exact Gf|]. destruct (replay_lsn _ _ _ Hrep) as [_ Hb].
+  { split; [exact Gf|]. destruct (replay_lsn _ _ _ Hrep) as [_ Hb]. destruct (replay_key _ _ _ Hrep) as [_ Hk].
     unfold LogInv in *. rewrite Forall_forall in *. intros w Hw.
-    apply (rec_inert_seq (flush r) (mem y) w Sf); [apply Hb; exact Hw | apply Lm; exact Hw]. }
+    apply (rec_inert_seq (flush r) (mem y) w Sf); [apply Hb; exact Hw | apply Hk; exact Hw | apply Lm; exact Hw]. }
   exists (flush r). cbn [mem disk wal]. split; [apply replay_inert; apply HGL|].
   split; [apply seq_refl|]. split; [exact Gf | exact HGL].
 Qed.
